@@ -154,6 +154,8 @@ fn candidates(i: &Inner, only_objs: Option<&[u8]>, dormant_pool_threads: usize, 
                 waiting_things += 1;
                 if st.processed.len() > st.outputs.len() {
                     out.push(Cand { op: None, obj, prop: "C12", clause: "consumer-not-woken", inv: 0, ret: 0, detail: format!("consumer of pipe s{} is blocked after {} outputs although {} items have been processed", s, st.outputs.len(), st.processed.len()) });
+                } else if !pool_capacity {
+                    // delivering the end / the next item takes a poll job on the pool
                 } else if st.closed && st.processed.len() == st.pushed.len() && st.items.is_empty() {
                     out.push(Cand { op: None, obj, prop: "C12", clause: "end-not-delivered", inv: 0, ret: 0, detail: format!("consumer of pipe s{} is blocked although the input ended and all {} items were delivered", s, st.outputs.len()) });
                 } else if !st.items.is_empty() || (st.closed && st.processed.len() < st.pushed.len()) {
@@ -174,12 +176,12 @@ fn attribute(w: &Arc<World>, only_objs: Option<&[u8]>, ctx: &str, snap: &[rt::Ta
     let pool_task = |t: usize| snap.get(t).map(|ti| ti.name == POOL_THREAD_NAME || !matches!(ti.state, rt::TaskState::Blocked(rt::BlockKind::Park, _))).unwrap_or(true);
     let (cands, waiting) = w.with(|i| candidates(i, only_objs, dormant, live_pool, &pool_task));
     // every unfinished operation per object, candidate or not: an obligation is only blamed if nothing unfinished is ahead of it
-    let unfinished: Vec<(usize, Option<OpId>, u64, bool)> = w.with(|i| {
+    let unfinished: Vec<(usize, Option<OpId>, u64, bool, u64)> = w.with(|i| {
         i.ops
             .iter()
             .enumerate()
-            .filter(|(_, a)| a.inv != 0 && !a.ended() && !a.cancelled && !a.busy && !a.panicked && a.ret != 0 && !(a.kind == Kind::FutSync && a.fut_dropped && a.start == 0) && matches!(a.kind, Kind::Desync | Kind::Sync | Kind::TrySync | Kind::FutDesync | Kind::FutSync | Kind::After | Kind::PipeItem))
-            .map(|(id, a)| (a.obj, Some(id), a.ret, a.start != 0))
+            .filter(|(_, a)| a.inv != 0 && !a.ended() && !a.cancelled && !a.busy && !a.panicked && !(a.kind == Kind::FutSync && a.fut_dropped && a.start == 0) && matches!(a.kind, Kind::Desync | Kind::Sync | Kind::TrySync | Kind::FutDesync | Kind::FutSync | Kind::After | Kind::PipeItem))
+            .map(|(id, a)| (a.obj, Some(id), if a.ret == 0 { u64::MAX } else { a.ret }, a.start != 0, a.inv))
             .collect()
     });
     if cands.is_empty() {
@@ -194,9 +196,23 @@ fn attribute(w: &Arc<World>, only_objs: Option<&[u8]>, ctx: &str, snap: &[rt::Ta
         // heads: no other unmet obligation on this object returned before this one was invoked
         // A is ahead of k if its call returned before k was invoked, or if A has already been dequeued (started) and k has not
         let started = |op: Option<OpId>| op.map(|id| w.with(|i| i.ops[id].start != 0)).unwrap_or(false);
-        let heads: Vec<&&Cand> = mine.iter().filter(|k| !unfinished.iter().any(|(o, aid, aret, astarted)| *o == obj && *aid != k.op && (*aret < k.inv || (*astarted && !started(k.op))))).collect();
+        let heads: Vec<&&Cand> = mine.iter().filter(|k| !unfinished.iter().any(|(o, aid, aret, astarted, _)| *o == obj && *aid != k.op && (*aret < k.inv || (*astarted && !started(k.op))))).collect();
         if heads.is_empty() {
             // everything stuck on this object is behind an operation that is itself waiting for something else
+            continue;
+        }
+        // calls that overlapped in real time may have been queued in either order: a head is only blamed if every other
+        // unfinished operation of the object is certainly behind it (its call returned before the other was invoked), or is
+        // itself a stuck operation of the same kind of obligation (then whichever is first violates that same property)
+        let certain = |k: &Cand| {
+            unfinished.iter().all(|(o, aid, _, _, ainv)| {
+                *o != obj || *aid == k.op || (k.ret != u64::MAX && k.ret < *ainv) || mine.iter().any(|m| m.op == *aid && m.prop == k.prop) || started(k.op)
+            })
+        };
+        let uncertain: Vec<&&&Cand> = heads.iter().filter(|h| !certain(h)).collect();
+        if !uncertain.is_empty() {
+            let all: Vec<String> = heads.iter().map(|h| format!("{}:{}", h.prop, h.detail)).collect();
+            w.note("AMBIG", "queue-order-unknown", Some(obj), None, format!("o{} is stuck; operations whose calls overlapped are unfinished and their queue order is unknown: {}", obj, all.join(" | ")));
             continue;
         }
         let suspended_obj = w.with(|i| !i.objs[obj].suspensions.is_empty());
@@ -209,6 +225,19 @@ fn attribute(w: &Arc<World>, only_objs: Option<&[u8]>, ctx: &str, snap: &[rt::Ta
             let prop = if suspended_obj && (h.prop == "C03" || h.prop == "C04") { "C13" } else { h.prop };
             let clause = if prop == "C13" && h.prop != "C13" { "held-work-never-ran" } else { h.clause };
             w.note(prop, clause, Some(obj), h.op, format!("{} {}", h.detail, qdebug));
+            // the same stuck operation also breaks the promises made about it under other headings
+            if let Some(opid) = h.op {
+                let (kind, fut_dropped, accepted) = w.with(|i| (i.ops[opid].kind, i.ops[opid].fut_dropped, i.ops[opid].accepted));
+                if h.prop == "C06" && accepted && matches!(kind, Kind::FutDesync | Kind::After | Kind::PipeItem) {
+                    w.note("C03", "accepted-operation-never-completed", Some(obj), h.op, format!("{} {}", h.detail, qdebug));
+                }
+                if (h.prop == "C06" || h.prop == "C03") && accepted && matches!(kind, Kind::FutDesync | Kind::After) && fut_dropped && w.with(|i| i.cur_max >= 1) {
+                    w.note("C07", "dropped-future-operation-never-completed", Some(obj), h.op, format!("{} {}", h.detail, qdebug));
+                }
+                if h.prop == "C06" && kind == Kind::FutSync {
+                    w.note("C08", "future_sync-operation-never-resumed", Some(obj), h.op, format!("{} {}", h.detail, qdebug));
+                }
+            }
         } else {
             let all: Vec<String> = heads.iter().map(|h| format!("{}:{}", h.prop, h.detail)).collect();
             w.note("AMBIG", "mixed-heads", Some(obj), None, format!("o{} is stuck and the first stuck operation cannot be determined: {} {}", obj, all.join(" | "), qdebug));
